@@ -58,7 +58,7 @@ func genRecs2(rt *rapid.T, recs []Rec, allowRooted bool) []Rec {
 		m = represent(m, r)
 		if allowRooted && rapid.IntRange(0, 3).Draw(rt, "root2") == 0 {
 			all := m.all()
-			m = RootOnBranch(m, all[1+r.Intn(len(all)-1)])
+			m = rootAtRandom(m, all, r)
 		}
 		out = append(out, Rec{Text: m.Newick()})
 		good = append(good[:i], good[i+1:]...)
